@@ -388,16 +388,28 @@ func RunSeeder(c *sim.Ctx) {
 				}
 				sid, st, sp := int(s.op.A[3]), int(s.op.A[4]), int(s.op.A[5])
 				num, size, chunks := int(s.op.A[6]), uint64(s.op.A[7]), int(s.op.A[8])
-				// a request that opens a session (and may prune another one) is only sent to an idle seeder: the
-				// model applies it at call time, which is right only if the reader is not lagging behind;
-				// requests that resume a live session may arrive while earlier responses are still in flight
+				// a request that opens a session (and may prune another one of the same peer) is only sent when none
+				// of that peer's earlier requests is still being served: the model applies it at call time, which is
+				// right only if the reader is not lagging behind for this peer; requests that resume a live session,
+				// and requests of other peers, may arrive while responses are still in flight
 				creates := true
 				for _, l := range pm.live {
 					if l.sid == sid {
 						creates = false
 					}
 				}
-				if creates && s.op.A[2] != 1 {
+				busy := false // requests of this very peer still being served?
+				for k, q := range pendingReq {
+					if k[0] != pi {
+						continue
+					}
+					for _, r := range q {
+						if r.expectNothing == "" && !r.optional && !r.sess.done {
+							busy = true
+						}
+					}
+				}
+				if creates && busy && s.op.A[2] != 1 {
 					drain()
 				}
 				rq := &reqRec{peer: pi, sid: sid, chunks: chunks, num: num, size: size}
